@@ -79,7 +79,8 @@ func sortMeaning(v string) (query.OrderBy, query.OrderDirection) {
 // {word, Cased, two words (quoted), unicode, value containing ':' (quoted), word in quotes} and,
 // all in double quotes, values containing apostrophes: one word, two words, apostrophe and colon,
 // two apostrophes (balanced for a lexer that lets either quote character close a section), a word
-// wrapped in apostrophes (would lose them if quotes were stripped twice).
+// wrapped in apostrophes (would lose them if quotes were stripped twice); metadata keys that must be
+// quoted; quoted qualifiers.
 func roundTripCatalogue() []clause {
 	type val struct {
 		v     string
@@ -99,7 +100,28 @@ func roundTripCatalogue() []clause {
 			out = append(out, mkMeta(key, v.v, v.force))
 		}
 	}
+	// metadata keys that can only be written in double quotes (a space, a colon, an apostrophe), with
+	// unquoted and quoted values
+	for _, key := range []string{"tracker url", "origin:kind", "it's key"} {
+		for _, v := range []val{{"word", false}, {"word", true}, {"two words", false}, {"it's:here", false}} {
+			out = append(out, mkMeta(key, v.v, v.force))
+		}
+	}
+	// a qualifier written in double quotes is that qualifier (what the unchanged lexer does with
+	// every chunk; the documentation only shows quoted values)
+	for _, c := range []clause{mk("status", "open", false), mk("label", "word", false), mk("author", "two words", false), mk("nolabel", "", false),
+		mk("sort", "id-desc", false), mkMeta("tracker url", "a:b", false)} {
+		out = append(out, quoteQualifier(c))
+	}
 	return append(out, sortClauses()...)
+}
+
+// quoteQualifier renders the clause with its qualifier in double quotes: "status":open,
+// "metadata":"tracker url":"a:b". The denotation is unchanged.
+func quoteQualifier(c clause) clause {
+	i := strings.IndexByte(c.Text, ':')
+	c.Text = `"` + c.Text[:i] + `"` + c.Text[i:]
+	return c
 }
 
 func renderQuery(cs []clause) string {
